@@ -531,3 +531,66 @@ def verify_index_T_unbounded(interp):
     del interp.obls[n0:]
     interp.obls.extend(out)
     return a
+
+
+def verify_write_index_rebase_unbounded(interp):
+    """digital_rf_write_rf_data_index, extend branch, for every block_index_len: every row offset is increased by
+    dataset_index and nothing else in the array changes (loop invariant over the rebasing loop)."""
+    from . import c_obj
+    from .c_blocks import local, set_local
+    name = "digital_rf_write_rf_data_index"
+    tu = interp.tu
+    fn = tu.funcs.get(name)
+    if fn is None:
+        raise Undecided(name + " not found")
+    st = State()
+    wptr, wf = c_obj.make_writer(interp, st)
+    R = z3.Int("block_index_len")
+    arr0 = z3.Array("rows", z3.IntSort(), z3.IntSort())
+    oarr = st.new_obj(ArrVal(arr0, 2 * R), "rows")
+    di, nia = wf["dataset_index"], wf["next_index_avail"]
+    j = z3.Int("j!rb")
+    st.assume(z3.And(wf["index_dataset"] != 0, R >= 1, R < (1 << 30), di >= 0, di < U62, nia >= 0, nia < (1 << 30)))
+    st.assume(z3.ForAll([j], z3.Implies(z3.And(j >= 0, j < 2 * R), z3.And(z3.Select(arr0, j) >= 0, z3.Select(arr0, j) < U62))))
+
+    def cur(s):
+        return s.mem[oarr].arr
+
+    def inv(it, s):
+        i = Z(local(it, s, fn, "i"))
+        a1 = cur(s)
+        return [("range", z3.And(i >= 0, i <= R)),
+                ("rebased_prefix", z3.ForAll([j], z3.Implies(z3.And(j >= 0, j < R),
+                                                             z3.And(z3.Select(a1, 2 * j) == z3.Select(arr0, 2 * j),
+                                                                    z3.Select(a1, 2 * j + 1) == z3.Select(arr0, 2 * j + 1) + z3.If(j < i, di, 0)))))]
+
+    def havoc(it, s):
+        set_local(it, s, fn, "i", fresh_int("i"))
+        s.mem[oarr] = ArrVal(z3.Array("rows_havoc!%d" % len(s.pc), z3.IntSort(), z3.IntSort()), 2 * R, "u64")
+    n0 = len(interp.obls)
+    paths = interp.run_function(name, st, [wptr, Ptr(oarr, 0), R], {"overflow": "check", "loops": {1: {"invariant": inv, "havoc": havoc}}})
+    out = []
+    for o in interp.obls[n0:]:
+        if o.kind == "inv":
+            o.label = o.label.replace(name + ".loop1", name + ".rebase_unbounded.loop")
+            out.append(o)
+        elif o.kind == "safety" and o.label.startswith(("bounds.", "nowrap.")):
+            o.label = o.label.split(".")[0] + "." + name + ".rebase_unbounded"
+            out.append(o)
+    nok = 0
+    for s, rv in paths:
+        s_ok = s.copy()
+        s_ok.assume(Z(rv) == 0)
+        if not interp.feasible(s_ok):
+            continue
+        nok += 1
+        a1 = cur(s)
+        goal = z3.ForAll([j], z3.Implies(z3.And(j >= 0, j < R), z3.And(z3.Select(a1, 2 * j) == z3.Select(arr0, 2 * j),
+                                                                       z3.Select(a1, 2 * j + 1) == z3.Select(arr0, 2 * j + 1) + di)))
+        out.append(Obl("%s.rebase_unbounded.all_rows_rebased" % name, name, fn["_line"], s_ok.pc, goal, kind="post", qhyps=s_ok.qpc))
+        out.append(Obl("%s.rebase_unbounded.next_index_avail" % name, name, fn["_line"], s_ok.pc,
+                       Z(s.mem[wptr.obj].fields["next_index_avail"]) == nia + R, kind="post", qhyps=s_ok.qpc))
+    if not nok:
+        raise EngineError("no successful path through " + name)
+    del interp.obls[n0:]
+    interp.obls.extend(out)
